@@ -87,19 +87,23 @@ def planted(task):
 
         from harness import project
 
+        # besides prefixes: HOLES -- what two overlapping writers of one file leave when the later one truncated it and died while the
+        # earlier one went on writing at its old offset: NUL bytes up to k, then the tail of the document (every 4th planted state)
         for k in sel:
             out["lens"].append(k)
+            hole = task.get("holes", True) and (k % 4 == 1) and k > 0
             for m in drv.names:
                 kk = min(k, len(docs[m]) - 1)
+                state = (b"\0" * kk + docs[m][kk:]) if hole else docs[m][:kk]
                 if task["where"] in ("local", "both"):
                     with open(drv.expected_local_path(m), "wb") as f:
-                        f.write(docs[m][:kk])
+                        f.write(state)
                 else:
                     lp = drv.local_path(m)
                     if lp:
                         os.remove(lp)
                 if task["where"] in ("adjacent", "both"):
-                    drv.write_adjacent(m, docs[m][:kk])
+                    drv.write_adjacent(m, state)
             out["n"] += 1
             seq = [("default", {}), ("create", {"create_cache": True}), ("cached", {"use_cache": True})]
             for name, opts in seq:
@@ -107,10 +111,10 @@ def planted(task):
                     tree = ceos_alos2.open_alos2(drv.url, backend_options=dict(opts))
                     d = project.diff(ref, project.fingerprint(tree))
                     if d:
-                        out["bad"].append((f"{name}-wrong-tree", k, f"prefix {k}/{len(docs['a'])} in {task['where']}: open({opts}) returned a different tree: {d[:2]}"))
+                        out["bad"].append((f"{name}-wrong-tree", k, f"{'hole of' if hole else 'prefix'} {k}/{len(docs['a'])} in {task['where']}: open({opts}) returned a different tree: {d[:2]}"))
                         break
                 except BaseException as e:  # noqa: B902
-                    out["bad"].append((f"{name}-raises", k, f"prefix {k}/{len(docs['a'])} in {task['where']}: open({opts}) raised {type(e).__name__}: {str(e)[:120]}"))
+                    out["bad"].append((f"{name}-raises", k, f"{'hole of' if hole else 'prefix'} {k}/{len(docs['a'])} in {task['where']}: open({opts}) raised {type(e).__name__}: {str(e)[:120]}"))
                     break
             else:
                 cells = drv.cells()
@@ -132,7 +136,8 @@ def real_crashes(task):
 
     from harness import cacherun, project
 
-    drv = cacherun.Driver(task["level"], "local", task["seed"], images=(("HH", None, task.get("lines", 40), 4), ("HV", None, 6, 2)))
+    imgs = (("HH", "B1", 6, 2), ("HH", "B2", 5, 2), ("HH", "B3", 7, 2)) if task.get("scansar") else (("HH", None, task.get("lines", 40), 4), ("HV", None, 6, 2))
+    drv = cacherun.Driver(task["level"], "local", task["seed"], images=imgs)
     out = {"task": task, "bad": [], "n": 0, "events": []}
     env = dict(os.environ, PYTHONWARNINGS="ignore")
     try:
@@ -186,6 +191,29 @@ def real_crashes(task):
                                            f"{'returned another tree' if pp.returncode == 3 else 'failed: ' + txt.strip()[-200:]}"))
                 check_open(f"repair-after-concurrent-readers-{where}", {"create_cache": True})
                 check_open(f"cached-after-concurrent-readers-{where}", {"use_cache": True})
+        elif mode == "concurrent-cli":
+            # the tool run for every image of a ScanSAR product AT ONCE (a shell loop with &), every rename / link of theirs delayed so that
+            # anything they stage under a shared name overlaps: afterwards a default open returns the right tree (complete or ignored indexes)
+            clear()
+            pdir = drv.url
+            cmd0 = ["strace", "-f", "-qq", "-o", "/dev/null", "-e", "trace=rename,renameat,renameat2,link,linkat", "-e", "inject=rename,renameat,renameat2,link,linkat:delay_enter=500000",
+                    sys.executable, "-W", "ignore", "-m", "ceos_alos2.sar_image"]
+            for rnd_ in range(2):
+                ps = [subprocess.Popen(cmd0 + [os.path.join(pdir, drv.b.images[i]["name"])], env=env, stdout=subprocess.PIPE, stderr=subprocess.STDOUT, text=True)
+                      for i in (range(len(drv.b.images)) if rnd_ == 0 else reversed(range(len(drv.b.images))))]
+                rcs = []
+                for pp in ps:
+                    txt, _ = pp.communicate(timeout=120)
+                    rcs.append((pp.returncode, txt.strip()[-160:]))
+                out["n"] += 1
+                out["events"].append({"concurrent_cli_exit": [r[0] for r in rcs]})
+                if any(r[0] != 0 for r in rcs):
+                    out["bad"].append(("concurrent-cli-failed", f"ceos-alos2-create-cache run for {len(ps)} images of one product at once: exit statuses {rcs}"))
+                check_open(f"default-open-after-concurrent-cli-{rnd_}")
+                check_open(f"uncached-after-concurrent-cli-{rnd_}", {"use_cache": False})
+                left = [n for n in os.listdir(pdir) if n not in drv.b.files and not n.endswith(".index")]
+                if left:
+                    out["bad"].append(("concurrent-cli-leftovers", f"files left in the product directory after the tool finished: {left}"))
         elif mode == "unusable-cache-dir":
             # no usable user cache directory (its path is a regular file) and a torn index next to the image: a default open is read-only
             clear()
@@ -300,7 +328,8 @@ def body(chk):
                  dict(file="image", kind="processed", n=4, ndata=6, bps=2), dict(file="image", kind="processed", n=3, ndata=4, bps=2),
                  dict(file="image", kind="signal", n=4, ndata=24, bps=8), dict(file="image", kind="signal", n=3, ndata=16, bps=8),
                  dict(file="image", kind="processed", n=40, ndata=8, bps=2), dict(file="image", kind="processed", n=6, ndata=4, bps=2),
-                 dict(file="image", kind="processed", n=3000, ndata=8, bps=2)])
+                 dict(file="image", kind="processed", n=3000, ndata=8, bps=2), dict(file="image", kind="signal", n=6, ndata=16, bps=8),
+                 dict(file="image", kind="signal", n=5, ndata=16, bps=8), dict(file="image", kind="signal", n=7, ndata=16, bps=8), dict(file="volume", nfp=5)])
     parts = 4 if quick else 16
     tasks = []
     combos = [("1.5", "local", "local"), ("1.5", "local", "adjacent"), ("1.1", "local", "both"), ("1.5", "memory", "adjacent"), ("1.1", "vtrace", "adjacent"),
@@ -331,6 +360,7 @@ def body(chk):
               dict(level="1.5", seed=chk.seed + 54, mode="racing"),
               dict(level="1.1", seed=chk.seed + 56, mode="concurrent-readers"),
               dict(level="1.5", seed=chk.seed + 57, mode="unusable-cache-dir"),
+              dict(level="1.1", seed=chk.seed + 58, mode="concurrent-cli", scansar=True),
               dict(level="1.5", seed=chk.seed + 55, mode="sigkill", lines=3000, delays=[0.6, 0.8, 0.9, 1.0] if quick else [0.3 + 0.05 * i for i in range(30)])]
     rres = checklib.pmap(real_crashes, rtasks, chk.scratch, procs=len(rtasks))
     nreal = 0
